@@ -36,13 +36,14 @@ DriverOK(e) == /\ \A i \in 1..Len(e.seqs)  : RecOK(e.seqs[i], e.k)
 \* hash ranks of the canonical k-mers of one sequence: the k-mer at position i of the upper-cased
 \* sequence has its reverse complement at position L-i-k+2 of rc
 SeqRanks(r, k) ==
-  LET u == UpperSeq(r.s)
+  LET u == UpperSeq(r.s) \o <<>>      \* (\o turns the function into an explicit tuple once; SubSeq of a function costs its whole length)
       L == Len(u)
   IN { LET x == SubSeq(u, i, i + k - 1)
            j == L - i - k + 2
        IN IF Greater(x, SubSeq(r.rc, j, j + k - 1)) THEN r.hr[j] ELSE r.hf[i]
        : i \in 1..NKmers(u, k) }
-Ranks(recs, k) == UNION { SeqRanks(recs[i], k) : i \in 1..Len(recs) }
+\* (a fold of \cup rather than UNION: TLC builds the result of UNION by sorted insertion, quadratic on a million ranks)
+Ranks(recs, k) == LET f(acc, r) == acc \cup SeqRanks(r, k) IN FoldLeft(f, {}, recs)
 
 SketchReason(e, K1, R, RK, RN) ==
   IF e.view # SketchView(K1, e.n) THEN
